@@ -1,5 +1,5 @@
 """C01 — calls through an opaque object behave exactly like direct calls."""
-from props import glueprops
+from props import glueprops, rtprops
 from gluerun import SIGMAP
 
 LEVEL = "exploration"
@@ -12,6 +12,9 @@ def run(chk, replay=None):
     n = chk.parts.get("corpus-native", {})
     calls = int(n.get("calls", 0)) + int(chk.parts.get("corpus-miri", {}).get("calls", 0))
     hist = int(n.get("histories", 0))
+    rtprops.execute(chk, "extfut", [dict(instr="release", part="ext-futures", count=200 if chk.tier == "quick" else 4000, args=dict(pid="C01")),
+                                    dict(instr="miri", part="ext-futures-miri", count=6, args=dict(pid="C01"))])
+    chk.floor("Sink op sequences through ext objects", chk.parts.get("ext-futures", {}).get("sink_sequences", 0), 2000)
     chk.coverage["evaluations"] = calls + h["model_stats"]["calls"]
     chk.coverage["distinct_nontrivial"] = hist + h["programs"]
     chk.coverage["rule"] = ("differential: the same generic driver code runs a seeded call history on the opaque object and on a fresh copy of the implementor; after every call the "
